@@ -89,7 +89,7 @@ Definition case_tn (c : ccase) (callopts : bool) (calls : list call) : res (list
 (* the same tools node run through Stream (Stream-mode runs): streams opened, merged tool 0's
    stream first, then tool 1's, ... and read to the end (any complete interleaving gives the same
    concatenation: Props/C18.v tools_node_streams_exactly) *)
-Definition case_tns (c : ccase) (callopts : bool) (calls : list call) : res (list string * list emitted) :=
+Definition case_tns (c : ccase) (callopts : bool) (calls : list call) : res (list string * list emitted * option N) :=
   tools_stream_frames (kind_lookup (case_tdefs c callopts)) (h_inv (k_fail_args c) (k_outs c)) (h_str (k_fail_args c) (k_outs c))
                       (h_handler (k_handler c)) (seq 0 (List.length calls)) seq_sched calls.
 
